@@ -1,5 +1,160 @@
+// ================= action/refresh.rs =================
+pub mod table {
+    use super::*;
+//@begin const src/table.rs - MAX_BUCKETS
+    pub const MAX_BUCKETS: usize = INFO_HASH_LEN * 8;
+//@end
+}
+//@begin const src/action/refresh.rs - REFRESH_INTERVAL_TIMEOUT
+pub exec const REFRESH_INTERVAL_TIMEOUT: Duration ensures dur_nanos(REFRESH_INTERVAL_TIMEOUT) == 6_000_000_000 { Duration::from_millis(6000) }
+//@end
+//@begin const src/action/refresh.rs - REFRESH_CONCURRENCY
+pub const REFRESH_CONCURRENCY: usize = 4;
+//@end
+//@begin type src/action/refresh.rs - struct TableRefresh
+pub struct TableRefresh {
+    pub table: Arc<Mutex<RoutingTable>>,
+    pub id_generator: MIDGenerator,
+    pub curr_refresh_bucket: usize,
+    pub next_refresh: Option<Timeout>,
+}
+//@end
+// tokio::sync::oneshot stand-in (bootstrap waiters; C15 is not claimed)
+pub mod oneshot {
+    pub struct Sender<T> { pub t: core::marker::PhantomData<T> }
+}
+// R-abs: `for (_, tx) in self.bootstrap_txs.drain() { tx.send(()).unwrap_or(()) }` (HashMap::drain / oneshot are outside the subset;
+// notifying waiters touches no state any claimed property depends on)
+#[verifier::external_body]
+pub fn vx_notify_all(txs: &mut HashMap<u64, oneshot::Sender<()>>) { unimplemented!() }
+
+/// C18 invariant: every pending table-refresh timeout is the one the refresh object remembers -- hence at most one
+pub open spec fn chain_ok(r: TableRefresh, t: Timer<ScheduledTaskCheck>) -> bool {
+    t.wf()
+    && (forall|id: int| #[trigger] t.pending@.contains_key(id) && t.pending@[id].0 is TableRefresh ==> r.next_refresh is Some && r.next_refresh->0.id as int == id)
+    && (r.next_refresh is Some ==> r.next_refresh->0.id < t.next_id
+            && (t.pending@.contains_key(r.next_refresh->0.id as int) ==> t.pending@[r.next_refresh->0.id as int].0 is TableRefresh))
+}
+/// a refresh query: find_node with an 8-byte transaction id carrying the refresh action's 5-byte prefix
+pub open spec fn refresh_query(m: Message, action: u64) -> bool {
+    m.transaction_id@.len() == 8 && (m.body matches MessageBody::Request(Request::FindNode(_)))
+    && forall|t: TransactionID| #[trigger] t.bytes@ == m.transaction_id@ ==> tid_value(t) >> 24 == action >> 24
+}
+//@props C18
+pub proof fn lemma_single_chain(r: TableRefresh, t: Timer<ScheduledTaskCheck>, a: int, b: int)
+    requires chain_ok(r, t), t.pending@.contains_key(a), t.pending@[a].0 is TableRefresh, t.pending@.contains_key(b), t.pending@[b].0 is TableRefresh
+    ensures a == b // @C18.at_most_one_pending_refresh_round
+{}
+
+impl TableRefresh {
+//@begin fn src/action/refresh.rs impl:TableRefresh action_id
+    pub fn action_id(&self) -> (r: ActionID) ensures r.action_id == self.id_generator.action_id >> 24 {
+        self.id_generator.action_id()
+    }
+//@end
+
+//@begin fn src/action/refresh.rs impl:TableRefresh continue_refresh rules=R-deasync props=C18,C19
+    pub fn continue_refresh(
+        &mut self,
+        socket: &Socket,
+        timer: &mut Timer<ScheduledTaskCheck>,
+        Tracked(tr): Tracked<&mut Trace>,
+    )
+        requires old(self).curr_refresh_bucket <= 160, chain_ok(*old(self), *old(timer)),
+        ensures final(self).curr_refresh_bucket <= 160, // @C18.cursor_stays_in_range
+            chain_ok(*final(self), *final(timer)), // @C18.single_refresh_chain
+            final(self).id_generator.action_id == old(self).id_generator.action_id,
+            // exactly one refresh round is pending afterwards, 6 s ahead
+            final(self).next_refresh is Some && final(timer).pending@.contains_key(final(self).next_refresh->0.id as int)
+                && final(timer).pending@[final(self).next_refresh->0.id as int] == (ScheduledTaskCheck::TableRefresh, 6_000_000_000nat), // @C18.next_round_scheduled_6s_ahead
+            // every other timeout is untouched
+            forall|id: int| !(old(timer).pending@.contains_key(id) && old(timer).pending@[id].0 is TableRefresh) && id != final(self).next_refresh->0.id
+                ==> (final(timer).pending@.contains_key(id) == old(timer).pending@.contains_key(id) && (old(timer).pending@.contains_key(id) ==> final(timer).pending@[id] == old(timer).pending@[id])), // @C18.other_timeouts_untouched
+            // a round sends at most 4 find_node queries (8-byte transaction ids of the refresh action) and nothing else
+            only_requests_and_yields(old(tr).ev, final(tr).ev), no_yield(old(tr).ev, final(tr).ev), final(tr).ev.len() <= old(tr).ev.len() + 8, // @C18.round_is_at_most_4_queries
+            forall|i: int| old(tr).ev.len() <= i < final(tr).ev.len() && #[trigger] final(tr).ev[i] is Send ==> refresh_query(final(tr).ev[i]->Send_0, old(self).id_generator.action_id), // @C19.refresh_queries_carry_8_byte_ids_of_the_refresh_action
+    {
+        proof { lemma_consts(); }
+        let ghost ev0 = tr.ev;
+        if self.curr_refresh_bucket == table::MAX_BUCKETS {
+            self.curr_refresh_bucket = 0;
+        }
+
+        let (this_node_id, target_id, num_good_nodes, num_questionable_nodes, nodes_to_contact) = {
+            let table = self.table.lock().unwrap();
+
+            let this_node_id = table.node_id();
+            let target_id = this_node_id.flip_bit(self.curr_refresh_bucket);
+            let num_good_nodes = table.num_good_nodes();
+            let num_questionable_nodes = table.num_questionable_nodes();
+            let nodes_to_contact = table
+                .closest_nodes(target_id)
+                .filter(|n: &&Node| -> (b: bool) { n.status() == NodeStatus::Questionable })
+                .filter(|n: &&Node| -> (b: bool) { !n.recently_requested_from() })
+                .take(REFRESH_CONCURRENCY)
+                .map(|node: &Node| -> (h: NodeHandle) { *node.handle() })
+                .collect::<Vec<_>>();
+
+            (
+                this_node_id,
+                target_id,
+                num_good_nodes,
+                num_questionable_nodes,
+                nodes_to_contact,
+            )
+        };
+
+        // Ping the closest questionable nodes
+        for node in it: nodes_to_contact
+            invariant it.snapshot@.remaining().len() <= 4, 0 <= it.index@ <= it.snapshot@.remaining().len(),
+                self.curr_refresh_bucket == old(self).curr_refresh_bucket || self.curr_refresh_bucket == 0, self.curr_refresh_bucket < 160,
+                self.next_refresh == old(self).next_refresh, self.id_generator.action_id == old(self).id_generator.action_id,
+                *timer == *old(timer),
+                only_requests_and_yields(ev0, tr.ev), no_yield(ev0, tr.ev), tr.ev.len() == ev0.len() + 2 * it.index@,
+                forall|i: int| ev0.len() <= i < tr.ev.len() && #[trigger] tr.ev[i] is Send ==> refresh_query(tr.ev[i]->Send_0, old(self).id_generator.action_id),
+        {
+            // Generate a transaction id for the request
+            let trans_id = self.id_generator.generate();
+
+            // Construct the message
+            let find_node_req = FindNodeRequest {
+                id: this_node_id,
+                target: target_id,
+                want: None,
+            };
+            let find_node_msg = Message {
+                transaction_id: trans_id.as_ref().to_vec(),
+                body: MessageBody::Request(Request::FindNode(find_node_req)),
+            };
+
+            // Send the message
+            if let Err(error) = socket.send(&find_node_msg, node.addr, Tracked(tr)) {
+            }
+            proof {
+                assert forall|t: TransactionID| #[trigger] t.bytes@ == find_node_msg.transaction_id@ implies t == trans_id by { assert(t.bytes =~= trans_id.bytes); }
+            }
+
+            // Mark that we requested from the node
+            if let Some(node) = self.table.lock().unwrap().find_node_mut(&node, Tracked(tr)) {
+                node.local_request();
+            }
+        }
+
+        // Start a timer for the next refresh. If the previous one is still pending (the refresh was
+        // restarted, e.g. after a re-bootstrap), cancel it so there is only ever one refresh chain.
+        if let Some(timeout) = self.next_refresh.take() {
+            timer.cancel(timeout);
+        }
+        self.next_refresh =
+            Some(timer.schedule_in(REFRESH_INTERVAL_TIMEOUT, ScheduledTaskCheck::TableRefresh));
+
+        self.curr_refresh_bucket += 1;
+    }
+//@end
+}
+
 // ================= handler.rs =================
-//@begin type src/handler.rs - struct DhtHandler drop=running,command_rx,aid_generator,bootstrap,next_bootstrap_txs_id,bootstrap_txs
+//@begin type src/handler.rs - struct DhtHandler drop=running,command_rx,aid_generator,bootstrap,next_bootstrap_txs_id
 pub struct DhtHandler {
     pub this_node_id: NodeId,
     pub timer: Timer<ScheduledTaskCheck>,
@@ -9,6 +164,7 @@ pub struct DhtHandler {
     pub token_store: TokenStore,
     pub routing_table: Arc<Mutex<RoutingTable>>,
     pub active_stores: AnnounceStorage,
+    pub bootstrap_txs: HashMap<u64, oneshot::Sender<()>>,
     pub refresh: TableRefresh,
     pub lookups: HashMap<ActionID, TableLookup>,
 }
@@ -16,7 +172,6 @@ pub struct DhtHandler {
 
 
 impl DhtHandler {
-    pub open spec fn wf(&self) -> bool { self.active_stores.wf() }
 
 //@begin fn src/handler.rs impl:DhtHandler ip_version nopub=1
     fn ip_version(&self) -> (r: IpVersion)
@@ -55,9 +210,9 @@ impl DhtHandler {
         addr: SocketAddr,
         Tracked(tr): Tracked<&mut Trace>,
     ) -> (res: Result<(), WorkerError>)
-        requires old(self).wf(),
-        ensures final(self).wf(),
-// ---- C05: a read-only node never replies; errors cause no traffic
+        requires old(self).hinv(),
+        ensures final(self).hinv(), no_new_refresh(old(self).timer, final(self).timer), final(self).refresh == old(self).refresh,
+            // ---- C05: a read-only node never replies; errors cause no traffic
             old(self).read_only && message.body is Request ==> final(tr).ev == old(tr).ev && res is Ok, // @C05.read_only_never_replies
             message.body is Error ==> final(tr).ev == old(tr).ev && res is Ok, // @C05.errors_cause_no_traffic
             // ---- C05 / C12: a query produces exactly [mark the sender if known, one reply to the source]; nothing is added to the table
@@ -113,7 +268,7 @@ impl DhtHandler {
             message.body is Response && message.transaction_id@.len() != 8 ==> res is Err && final(tr).ev == old(tr).ev, // @C12.wrong_length_tid_rejected
             message.body is Response && message.transaction_id@.len() == 8 ==> ({
                 forall|t: TransactionID| #[trigger] t.bytes@ == message.transaction_id@
-                    && !old(self).lookups@.contains_key(ActionID { action_id: tid_value(t) >> 24 }) && old(self).refresh.action != (ActionID { action_id: tid_value(t) >> 24 })
+                    && !old(self).lookups@.contains_key(ActionID { action_id: tid_value(t) >> 24 }) && old(self).refresh.id_generator.action_id >> 24 != tid_value(t) >> 24
                     ==> res is Err && final(tr).ev == old(tr).ev }), // @C12.unknown_action_prefix_rejected
             // ---- C05: responses are never answered: whatever a response triggers, it is queries only
             message.body is Response ==> sends_only_requests(old(tr).ev, final(tr).ev), // @C05.responses_never_answered
@@ -308,11 +463,12 @@ impl DhtHandler {
         rsp: Response,
         Tracked(tr): Tracked<&mut Trace>,
     ) -> (res: Result<(), WorkerError>)
-        requires old(self).wf(),
-        ensures final(self).wf(), final(self).active_stores == old(self).active_stores, final(self).token_store == old(self).token_store,
+        requires old(self).hinv(),
+        ensures final(self).hinv(), no_new_refresh(old(self).timer, final(self).timer), final(self).refresh == old(self).refresh,
+            final(self).active_stores == old(self).active_stores, final(self).token_store == old(self).token_store,
             extends(old(tr).ev, final(tr).ev),
             // unknown action prefix: rejected, nothing happens (neither contacts nor any search result)
-            !old(self).lookups@.contains_key(ActionID { action_id: tid_value(trans_id) >> 24 }) && old(self).refresh.action != (ActionID { action_id: tid_value(trans_id) >> 24 })
+            !old(self).lookups@.contains_key(ActionID { action_id: tid_value(trans_id) >> 24 }) && old(self).refresh.id_generator.action_id >> 24 != tid_value(trans_id) >> 24
                 ==> res is Err && final(tr).ev == old(tr).ev, // @C12.unknown_action_prefix_rejected
             // accepted response: the responder is offered as good, the nodes it names (own family) as hearsay; then the search reacts
             res is Ok ==> delta(old(tr).ev, final(tr).ev).len() >= 1
@@ -356,7 +512,7 @@ impl DhtHandler {
     pub fn handle_lookup_completed(&mut self, trans_id: TransactionID, Tracked(tr): Tracked<&mut Trace>)
         ensures final(self).active_stores == old(self).active_stores, final(self).token_store == old(self).token_store,
             final(self).socket == old(self).socket, final(self).this_node_id == old(self).this_node_id, final(self).read_only == old(self).read_only,
-            final(self).refresh == old(self).refresh,
+            final(self).refresh == old(self).refresh, final(self).timer == old(self).timer,
             only_requests_and_yields(old(tr).ev, final(tr).ev), // @C05.search_completion_sends_only_queries
     {
         broadcast use vstd::std_specs::hash::group_hash_axioms, actionid_key_model;
@@ -412,6 +568,107 @@ impl DhtHandler {
         };
 
         Ok((nodes_v4, nodes_v6))
+    }
+//@end
+}
+
+impl DhtHandler {
+    /// handler invariant between events: store invariant + single refresh chain
+    pub open spec fn hinv(&self) -> bool {
+        self.active_stores.wf() && self.refresh.curr_refresh_bucket <= 160 && chain_ok(self.refresh, self.timer)
+    }
+    pub open spec fn one_refresh_pending(&self) -> bool {
+        self.refresh.next_refresh is Some && self.timer.pending@.contains_key(self.refresh.next_refresh->0.id as int)
+            && self.timer.pending@[self.refresh.next_refresh->0.id as int] == (ScheduledTaskCheck::TableRefresh, 6_000_000_000nat)
+    }
+    /// timeouts other than the refresh round are untouched
+    pub open spec fn frame_non_refresh(&self, o: DhtHandler) -> bool {
+        forall|id: int| !(o.timer.pending@.contains_key(id) && o.timer.pending@[id].0 is TableRefresh) && id != self.refresh.next_refresh->0.id
+            ==> (self.timer.pending@.contains_key(id) == o.timer.pending@.contains_key(id) && (o.timer.pending@.contains_key(id) ==> self.timer.pending@[id] == o.timer.pending@[id]))
+    }
+
+//@begin fn src/handler.rs impl:DhtHandler handle_check_table_refresh rules=R-deasync props=C18
+    pub fn handle_check_table_refresh(&mut self, Tracked(tr): Tracked<&mut Trace>)
+        requires old(self).hinv(),
+        ensures final(self).hinv(), final(self).frame_non_refresh(*old(self)),
+            final(self).one_refresh_pending(), // @C18.next_round_scheduled_6s_ahead
+            only_requests_and_yields(old(tr).ev, final(tr).ev), final(tr).ev.len() <= old(tr).ev.len() + 8, // @C18.round_is_at_most_4_queries
+    {
+        self.refresh
+            .continue_refresh(&self.socket, &mut self.timer, Tracked(tr))
+            
+    }
+//@end
+
+//@begin fn src/handler.rs impl:DhtHandler handle_bootstrap_success rules=R-deasync props=C18
+    pub fn handle_bootstrap_success(&mut self, Tracked(tr): Tracked<&mut Trace>)
+        requires old(self).hinv(),
+        ensures final(self).hinv(), // @C18.single_refresh_chain
+            final(self).frame_non_refresh(*old(self)),
+            final(self).one_refresh_pending(), // @C18.one_round_per_bootstrap_completion
+            only_requests_and_yields(old(tr).ev, final(tr).ev), final(tr).ev.len() <= old(tr).ev.len() + 8,
+    {
+        // Send notification that the bootstrap has completed.
+        vx_notify_all(&mut self.bootstrap_txs);
+
+        // Start the refresh action.
+        self.handle_check_table_refresh(Tracked(tr));
+    }
+//@end
+
+//@begin fn src/handler.rs impl:DhtHandler handle_timeout rules=R-deasync props=C18,C05
+    pub fn handle_timeout(&mut self, token: ScheduledTaskCheck, Tracked(tr): Tracked<&mut Trace>)
+        requires old(self).hinv(),
+        ensures final(self).hinv(), // @C18.single_refresh_chain
+            only_requests_and_yields(old(tr).ev, final(tr).ev), // @C05.timeouts_send_only_queries
+            !(token is TableRefresh) ==> no_new_refresh(old(self).timer, final(self).timer), // @C18.only_a_refresh_timeout_starts_a_round
+    {
+        match token {
+            ScheduledTaskCheck::TableRefresh => {
+                self.handle_check_table_refresh(Tracked(tr));
+            }
+            ScheduledTaskCheck::LookupTimeout(trans_id) => {
+                self.handle_check_lookup_timeout(trans_id, Tracked(tr));
+            }
+            ScheduledTaskCheck::LookupEndGame(trans_id) => {
+                self.handle_check_lookup_endgame(trans_id, Tracked(tr));
+            }
+        }
+    }
+//@end
+
+//@begin fn src/handler.rs impl:DhtHandler handle_check_lookup_timeout rules=R-deasync props=C18,C05
+    pub fn handle_check_lookup_timeout(&mut self, trans_id: TransactionID, Tracked(tr): Tracked<&mut Trace>)
+        requires old(self).hinv(),
+        ensures final(self).hinv(), final(self).refresh == old(self).refresh,
+            no_new_refresh(old(self).timer, final(self).timer),
+            only_requests_and_yields(old(tr).ev, final(tr).ev),
+    {
+        broadcast use vstd::std_specs::hash::group_hash_axioms, actionid_key_model;
+        let lookup = if let Some(lookup) = self.lookups.get_mut(&trans_id.action_id()) {
+            lookup
+        } else {
+            return;
+        };
+
+        let lookup_status = lookup
+            .recv_timeout(&trans_id, &self.socket, &mut self.timer, Tracked(tr))
+            ;
+
+        match lookup_status {
+            ActionStatus::Ongoing => (),
+            ActionStatus::Completed => self.handle_lookup_completed(trans_id, Tracked(tr)),
+        }
+    }
+//@end
+
+//@begin fn src/handler.rs impl:DhtHandler handle_check_lookup_endgame rules=R-deasync props=C18,C05
+    pub fn handle_check_lookup_endgame(&mut self, trans_id: TransactionID, Tracked(tr): Tracked<&mut Trace>)
+        requires old(self).hinv(),
+        ensures final(self).hinv(), final(self).refresh == old(self).refresh, final(self).timer == old(self).timer,
+            only_requests_and_yields(old(tr).ev, final(tr).ev),
+    {
+        self.handle_lookup_completed(trans_id, Tracked(tr))
     }
 //@end
 }
